@@ -75,9 +75,18 @@ def bounded_part_view(ctx):
     for qn in ('utils.ReadFileChunk.__init__', '__init__.ReadFileChunk.__init__'):
         f = ctx.func(qn)
         cs = [c for c in own_calls(f.node) if (dotted(c.func) or '') == 'self._calculate_file_size']
+        if not cs:
+            # the helper never used self: it may live at module level under another name - recognise it by what it is given
+            cs = [c for c in own_calls(f.node) if {'requested_size', 'start_byte', 'actual_file_size'} <= set(q.bound(ctx, f, c))]
         b = q.bound(ctx, f, cs[0]) if len(cs) == 1 else {}
         ok = len(cs) == 1 and norm(b.get('requested_size')) == 'chunk_size' and norm(b.get('actual_file_size')) == 'full_file_size' \
             and norm(b.get('start_byte')) in ('self._start_byte', 'start_byte')
+        if not cs:
+            # the clamp written in place: self._size = min(full_file_size - start_byte, chunk_size)
+            st = [n for n in own_nodes(f.node) if isinstance(n, ast.Assign) and any(dotted(t) == 'self._size' for t in n.targets)]
+            v = st[0].value if len(st) == 1 else None
+            ok = isinstance(v, ast.Call) and norm(v.func) == 'min' and len(v.args) == 2 and \
+                sorted(norm(a) for a in v.args) in (sorted(['full_file_size - start_byte', 'chunk_size']), sorted(['full_file_size - self._start_byte', 'chunk_size']))
         ctx.ob(f, '_calculate_file_size(requested_size=chunk_size, start_byte=start, actual_file_size=full_file_size)', ok, 'chunk size / file size / start are crossed')
 
 
@@ -112,19 +121,25 @@ def part_record_is_part_sent(ctx):
                 ctx.ob(f, f"'PartNumber': {norm(rec['PartNumber'])} is the number sent ({norm(pn)})", norm(rec['PartNumber']) == norm(pn),
                        'the record must carry the part number that was sent, otherwise Complete lists the wrong part')
             if 'ETag' in rec:
-                ok = q.derives_from(f, rec['ETag'], lambda n: isinstance(n, ast.Subscript) and _root(n) == resp and 'ETag' in norm(n))
+                ok = q.derives_from(f, rec['ETag'], lambda n: isinstance(n, ast.Subscript) and _root(n, f) == resp and 'ETag' in norm(n))
                 ctx.ob(f, f"'ETag' comes from {resp}[...]['ETag']", ok, "the ETag must be the one S3 returned for this part")
             # checksum additions: d[checksum_member] = response[...][checksum_member]
             if isinstance(d, ast.Name):
                 for x in own_nodes(f.node):
                     if isinstance(x, ast.Assign) and isinstance(x.targets[0], ast.Subscript) and norm(x.targets[0].value) == d.id:
-                        ok = isinstance(x.value, ast.Subscript) and _root(x.value) == resp and norm(x.value.slice) == norm(x.targets[0].slice)
+                        ok = isinstance(x.value, ast.Subscript) and _root(x.value, f) == resp and norm(x.value.slice) == norm(x.targets[0].slice)
                         ctx.ob(f, x, ok, 'a part checksum in the record must be the one S3 returned under the same member name')
 
 
-def _root(sub):
+def _root(sub, func=None, depth=0):
+    """the local at the root of a subscript chain; a local that itself caches a subscript of another local
+    (`result = response['CopyPartResult']`) is followed to that one"""
     while isinstance(sub, ast.Subscript):
         sub = sub.value
+    if isinstance(sub, ast.Name) and func is not None and depth < 4:
+        d = q.single_def(func, sub.id)
+        if isinstance(d, ast.Subscript):
+            return _root(d, func, depth + 1)
     return sub.id if isinstance(sub, ast.Name) else None
 
 
@@ -292,7 +307,7 @@ def stream_is_read_to_eof_from_its_position(ctx):
     ok = len(rd) == 1 and not rd[0].args and isinstance(rd[0]._parent, ast.BinOp) and norm(rd[0]._parent.left) == 'self._initial_data'
     ctx.ob(p, 'single-request body = self._initial_data + fileobj.read() (to EOF)', ok, 'the already buffered prefix and the rest of the stream must both be sent, in that order')
     r = ctx.func('upload.UploadNonSeekableInputManager._read')
-    joins = [n for n in own_nodes(r.node) if isinstance(n, ast.BinOp) and isinstance(n.op, ast.Add) and norm(n.left) == 'self._initial_data' and 'fileobj.read(' in norm(n.right)]
+    joins = [n for n in own_nodes(r.node) if isinstance(n, ast.BinOp) and isinstance(n.op, ast.Add) and norm(q.resolve_local(r, n.left)) == 'self._initial_data' and 'fileobj.read(' in norm(n.right)]
     ctx.ob(r, '_read: buffered prefix first, then the stream', len(joins) == 1, 'order of buffered and fresh data')
     # probes
     for qn in ('compat.seekable', 'compat.readable'):
